@@ -121,14 +121,15 @@ Print Assumptions C17_compile_local_operands_partial.
    literal whose len(Pairs) differs from len(Order) ("duplicated map key" is
    a parse error; OpMap's operand is len(Pairs) while 2*len(Order) values are
    pushed) and no block as a statement of its own (BlockStatement only occurs
-   as a body) — and cbreaks st = [] — no break outside a loop ("break is not
-   in a loop" is a parse error; such a break would leave an unpatched jump
-   placeholder). *)
+   as a body) — and nb_slist — no break outside a loop ("break is not in a
+   loop" is a parse error; such a break would leave an unpatched jump
+   placeholder; compile_no_pending_break: without one the compiler ends with
+   an empty break list). *)
 Theorem C17_compile_wf_all : forall (p : slist) (st : cstate),
-  compile p = COk st -> wplain_slist p = true -> cbreaks st = [] ->
+  compile p = COk st -> wplain_slist p = true -> nb_slist p = true ->
   WF {| bcode := out_code (bytecode_of st); nconsts := N.of_nat (List.length (out_consts (bytecode_of st)));
         gcount := out_gcount (bytecode_of st); lcount := out_lcount (bytecode_of st) |}.
-Proof. exact compile_wf_all. Qed.
+Proof. exact compile_wf_total. Qed.
 Print Assumptions C17_compile_wf_all.
 
 (* … and the second half on top of it: the VM model cannot be crashed through
@@ -136,7 +137,7 @@ Print Assumptions C17_compile_wf_all.
    C17_wf_vm_safe_partial: a type-directed crash is excluded only by the typed
    simulation of C16). *)
 Theorem C17_compile_vm_safe_all_partial : forall (p : slist) (st : cstate),
-  compile p = COk st -> wplain_slist p = true -> cbreaks st = [] ->
+  compile p = COk st -> wplain_slist p = true -> nb_slist p = true ->
   let prog := program_of (bytecode_of st) in
   forall s, reachable prog s ->
     plcount prog <= sp_of s /\
@@ -148,7 +149,7 @@ Theorem C17_compile_vm_safe_all_partial : forall (p : slist) (st : cstate),
 Proof.
   intros p st HC HP HB prog. apply wf_vm_safe_partial.
   unfold prog, info_of, program_of. cbn [pcode pconsts pgcount plcount]. rewrite map_length.
-  apply (compile_wf_all p st HC HP HB).
+  apply (compile_wf_total p st HC HP HB).
 Qed.
 Print Assumptions C17_compile_vm_safe_all_partial.
 
@@ -290,7 +291,7 @@ Definition ex_stores : slist :=
           (SCons (SAssign (v "i") (EBin BPlus TNum TNum (v "i") (num 1%Z))) SNil))))) SNil))).
 
 Example C17_ex_stores :
-  wplain_slist ex_stores = true /\ plain_slist ex_stores = false /\
+  wplain_slist ex_stores = true /\ nb_slist ex_stores = true /\ plain_slist ex_stores = false /\
   match compile ex_stores with
   | COk st => cbreaks st = [] /\
       (let bc := bytecode_of st in
